@@ -38,6 +38,8 @@ THEOREMS = [
     "position_record_roundtrip", "position_record_cut_roundtrip", "units_spec", "sentinels_spec", "sigma_spec",
     "epoch_spec", "ignored_lines_spec", "sp3_epoch_block_roundtrip", "sp3_file_roundtrip",
     "dataset_epoch_spec", "c13_sigma_multiplied_refuted", "c13_dataset_fraction_as_ms_refuted",
+    "sp3_header_roundtrip", "sp3_file_roundtrip_full", "sp3_file_roundtrip_full_distinct", "sp3_file_roundtrip_dups",
+    "jdn_civil", "jdn_inverse", "dataset_epoch_civil",
 ]
 
 REQ = "From Coq Require Import Uint63 Floats.\nFrom Verif Require Import Lib.Dyadic Lib.Pack Model.C13_Sp3."
